@@ -390,6 +390,25 @@ for _k in ("C13", "C14"):
     CLAIMED[_k]["text"] += NODESCHEMA_TIE
     CLAIMED[_k]["technique"] += " + schema hooks and constructors translated from the Python AST with equality proofs (NodeSchemaBodiesEq)"
 
+# rounds 9 and 10 of seeded changes: what the correspondence runs gained (DESIGN section 14)
+R910 = {
+ "C01": " Concurrent Gateway.send calls from several tasks over transports whose write really suspends (gated, deterministic schedules) are run: every transport.write argument must be exactly one encoded message (theorems joined_not_one_line, one_write_one_message).",
+ "C02": " Histories in which the application assigns to, sends, dumps or keeps decoded Message objects between decodes are run (what a line decodes to must not depend on what was done with earlier results; theorems accepts_functional, decode_history_free).",
+ "C07": " Which nodes are sleeping destinations is derived by the oracle from the history (restored record, wake signal, re-presentation), never from the library's own flag; every internal type from a node with parked commands is generated (theorems sleeping_until_presented, parks_until_presented).",
+ "C08": " Held commands are observed behaviourally (every history ends with a fault-free wake of every node); interrupted releases after which the error leaves the context and the SAME Gateway object with a real persistence file is entered again are run (theorem nothing_lost_life).",
+ "C10": " The missing-child path is run on nodes of every stored protocol_version and origin (preloaded, presented, id-request placeholder, restored from aiomysensors- and pymysensors-format files); requests are judged on the transport's write log.",
+ "C11": " Sessions are real `async with` statements left in 11 ways, restarted with a new Gateway on the same file, with the file damaged between sessions in every way load distinguishes (theorems never_handed_out_twice_restarts, never_handed_out_twice_damaged_file, start_refused_*).",
+ "C12": " The same Message instance re-sent after assignments, or assigned while held, is run (model Model/Objects.lean; theorems resend_after_assignment_writes_current_line, held_object_released_as_it_reads_now).",
+ "C13": " Registries built by message histories (incl. id requests before the version is known) are saved after every step; the harness judges registries holding any value instead of crashing.",
+ "C14": " Loads are also run in processes with a past: several event loops on shared paths with contention (persist_loops.py), and fresh interpreters in which an application defined schema / model classes named like or subclassing the library's (persist_env.py) (theorem every_load_total).",
+ "C16": " Registries of up to 254 nodes changed by a concurrent task at every loop iteration (churn.py), entering failed or cancelled at every step of __aenter__ with the file checked afterwards (enterfail.py), and the far end ending the connection while the body reads with the transport's own sockets checked after exit (hangup.py) are run; the two wall-clock-dependent groups confirm a violation by a re-run with relaxed timing (theorems churn_*, load_failure_touches_nothing, C16Hangup).",
+ "C17": " Delivery over real loopback TCP and ptys with prompt, slow and late-reading peers (0 lines to 9 MB) is run: bytes accepted by write() must reach the peer before the clean end of stream (theorems disconnect_keeps_written_bytes, session_delivers_lines_then_closes).",
+ "C18": " Faults of 18 exception classes at every hook and position with delivery probes after a reported success, and a pool of 79 prefixes per run (empty levels, unicode, long) used as configured, are run (theorems connected_hears_every_command, hears_configured_iff, leading_divider_matters).",
+ "C19": " The cross-line domain is decided from the registry, never from the error raised; placeholder nodes speaking before their presentation and version reports at every position with held state are generated (theorems history_stable_across_lines_registry, version_report_keeps_held).",
+}
+for _k, _t in R910.items():
+    CLAIMED[_k]["text"] += _t
+
 for pid, c in CLAIMED.items():
     checks.append({
         "property_id": pid,
